@@ -65,6 +65,7 @@ type SpecFunc struct {
 	Result     *CExpr
 	Body       *CExpr // nil => uninterpreted
 	Axioms     []Clause
+	Rec        bool // recursive: emitted as define-fun-rec with the heap arrays it reads as extra parameters
 }
 
 type EventDecl struct {
@@ -247,10 +248,16 @@ func (db *ContractDB) LoadFile(path, pkgPath string, assumed bool) error {
 				db.TypeInvs[pkgPath+"."+f[0]] = ti
 				curTI = ti
 			case "spec":
+				isRec := false
+				if strings.HasPrefix(rest, "rec ") {
+					isRec = true
+					rest = strings.TrimSpace(rest[4:])
+				}
 				sf, err := parseSpecDecl(rest)
 				if err != nil {
 					return errf(l, "%v", err)
 				}
+				sf.Rec = isRec
 				sf.Pkg = pkgPath
 				if _, dup := db.Specs[sf.Name]; dup {
 					return errf(l, "duplicate spec function %s", sf.Name)
